@@ -168,51 +168,117 @@ def run(rep: Report, tier: str) -> None:  # noqa: C901
         rep.add(transp.fnd("R07.4", "filters-test-presence", mf, mf.node.lineno, "the partial_* / always_* filters no longer test the presence columns"))
 
     # ---- R07.5 ----
+    # Holes of the SQL skeletons are identified by their POSITION in the CASE / WHERE (and by what their definition is), never by
+    # the name of the Python local they print.
+    HRE = re.compile(re.escape(L) + r"(.*?)" + re.escape(R_))
+
+    def value_exprs(f_: FuncInfo, h: str, depth: int = 0) -> List[ast.AST]:
+        """expressions a local may hold: its assignments, and its column of a literal tuple-of-tuples it is a loop target of"""
+        out: List[ast.AST] = []
+        for n in walk_no_nested(f_.node):
+            if isinstance(n, (ast.Assign, ast.AnnAssign)) and n.value is not None \
+                    and any(isinstance(t, ast.Name) and t.id == h for t in (n.targets if isinstance(n, ast.Assign) else [n.target])):
+                out.append(n.value)
+            if isinstance(n, ast.For) and isinstance(n.target, ast.Tuple) and isinstance(n.iter, (ast.Tuple, ast.List)):
+                for i_, t in enumerate(n.target.elts):
+                    if isinstance(t, ast.Name) and t.id == h:
+                        for row in n.iter.elts:
+                            if isinstance(row, (ast.Tuple, ast.List)) and i_ < len(row.elts):
+                                out.append(row.elts[i_])
+        res: List[ast.AST] = []
+        for e in out:
+            if isinstance(e, ast.IfExp):
+                cand = [e.body, e.orelse]
+            else:
+                cand = [e]
+            for c_ in cand:
+                if isinstance(c_, ast.Name) and depth < 3:
+                    res.extend(value_exprs(f_, c_.id, depth + 1) or [c_])
+                else:
+                    res.append(c_)
+        return res
+
+    def is_null_hole(f_: FuncInfo, h: str) -> bool:
+        txts = []
+        for e in value_exprs(f_, h):
+            txts.append(((sqlx.skeleton_of(e) or (None, []))[0] or (str(e.value) if isinstance(e, ast.Constant) else "?")).strip().upper())
+        return bool(txts) and all(t.startswith("CAST(NULL") or t == "NULL" for t in txts)
+
+    def gate_formula(f_: FuncInfo, t: str) -> Tuple[str, Optional[str]]:
+        """(`CASE WHEN <cond> THEN <v> ELSE <v> END` with the condition's hole -> X, value holes -> NULL / TRUE, the condition hole)"""
+        m = re.match(r"\s*CASE WHEN (?P<c>.*?) THEN (?P<t>.*?) ELSE (?P<e>.*?) END", t, re.S)
+        if not m:
+            raise AnalysisError(f"{f_.name}: gating CASE not of the form CASE WHEN c THEN v ELSE v END: `{t[:70]}`")
+        ch = sorted(set(HRE.findall(m.group("c"))))
+        if len(ch) > 1:
+            raise AnalysisError(f"{f_.name}: gating CASE tests more than one Python value: `{t[:70]}`")
+        cond = HRE.sub("X", m.group("c"))
+        vals = [HRE.sub(lambda mm: "NULL" if is_null_hole(f_, mm.group(1)) else "TRUE", m.group(k)) for k in ("t", "e")]
+        return f"CASE WHEN {cond} THEN {vals[0]} ELSE {vals[1]} END", (ch[0] if ch else None)
+
+    def gates(f_: FuncInfo) -> List[str]:
+        return [t for t, _l in _skeletons(P, f_) if re.match(r"\s*CASE WHEN .*\bEND\s+AS\s+\"?" + re.escape(L), t, re.S)]
     # (a) check(): visit_Validation
     vv = P.func(f"{TR}.visit_Validation")
-    sk = _skeletons(P, vv)
-    gate = [t for t, _l in sk if "CASE WHEN" in t and "IS FALSE" in t.upper() and "col" in t]
-    filt = [t for t, _l in sk if re.search(r"\bWHERE\b", t)]
+    gate = gates(vv)
+    filt = [t for t, _l in _skeletons(P, vv) if re.match(r"\s*WHERE\b", t)]
     if len(gate) != 1 or len(filt) != 1:
         raise AnalysisError(f"visit_Validation: gating CASE / WHERE skeletons not found ({len(gate)}, {len(filt)})")
-    g_txt = re.sub(r"\s+AS\s+\"?" + re.escape(L) + r".*$", "", gate[0]).strip()
-    g_txt = _subst(g_txt, {r"bool_ref": "X", r"val": "TRUE"})
-    f_txt = _subst(filt[0].split("WHERE", 1)[1], {r"bool_ref": "X"})
-    _truth(rep, vv, "check", g_txt, f_txt)
-    # (b) check_hierarchy
+    g_txt, gh = gate_formula(vv, gate[0])
+    fh = sorted(set(HRE.findall(filt[0])))
+    rep.instance("R07.5", "check/same-condition", sample={"gate": gh, "filter": fh})
+    if fh != [gh]:
+        rep.add(transp.fnd("R07.5", "check/same-condition", vv, vv.node.lineno,
+                           "check() filters invalid rows and gates errorcode/errorlevel on different values: the two output modes disagree on which datapoints fail"))
+    else:
+        _truth(rep, vv, "check", g_txt, HRE.sub("X", filt[0].split("WHERE", 1)[1]))
+    # (b) check_hierarchy (the condition is the SQL column _bv of the inner query)
     ch = P.func(f"{TR}._build_check_hr_rule_select")
-    sk = _skeletons(P, ch)
-    gate = [t for t, _l in sk if "CASE WHEN" in t and "_bv" in t and "null_expr" in t]
-    filt = [t for t, _l in sk if re.search(r"\bWHERE\b\s+_bv", t)]
+    gate = [t for t in gates(ch) if "_bv" in t]
+    filt = [t for t, _l in _skeletons(P, ch) if re.search(r"\bWHERE\b\s+_bv", t)]
     if len(gate) != 1 or len(filt) != 1:
         raise AnalysisError(f"_build_check_hr_rule_select: gating CASE / WHERE skeletons not found ({len(gate)}, {len(filt)})")
-    g_txt = re.sub(r"\s+AS\s+" + re.escape(L) + r".*$", "", gate[0]).strip()
-    g_txt = _subst(g_txt, {r"null_expr": "NULL", r"val": "TRUE"}).replace("_bv", "X")
-    f_txt = filt[0].split("WHERE", 1)[1].replace("_bv", "X")
-    _truth(rep, ch, "check_hierarchy", g_txt, f_txt)
-    # (c) check_datapoint: same variable gates both; its definition is the rule being false
+    g_txt, _gh = gate_formula(ch, gate[0])
+    _truth(rep, ch, "check_hierarchy", g_txt.replace("_bv", "X"), filt[0].split("WHERE", 1)[1].replace("_bv", "X"))
+    # (c) check_datapoint: the same Python value gates both; its definition is the rule being false
     dp = P.func(f"{TR}._build_dp_rule_sql")
-    sk = _skeletons(P, dp)
-    gate = [t for t, _l in sk if "CASE WHEN" in t and "ELSE NULL END" in t and "val" in t]
-    filt = [t for t, _l in sk if re.search(r"\bWHERE\b", t)]
+    gate = gates(dp)
+    filt = [t for t, _l in _skeletons(P, dp) if re.search(r"\bWHERE\b\s*" + re.escape(L) + r"[^" + re.escape(R_) + r"]*" + re.escape(R_) + r"\s*$", t)]
     if len(gate) != 1 or len(filt) != 1:
         raise AnalysisError(f"_build_dp_rule_sql: gating CASE / WHERE skeletons not found ({len(gate)}, {len(filt)})")
-    gvar = re.search(r"CASE WHEN " + re.escape(L) + r"(\w+)" + re.escape(R_), gate[0])
-    fvar = re.search(r"WHERE " + re.escape(L) + r"(\w+)" + re.escape(R_), filt[0])
-    rep.instance("R07.5", "check_datapoint/same-condition", sample={"gate": gvar.group(1) if gvar else None, "filter": fvar.group(1) if fvar else None})
-    if not gvar or not fvar or gvar.group(1) != fvar.group(1):
+    _g, gvar = gate_formula(dp, gate[0])
+    fvar = HRE.findall(filt[0].rsplit("WHERE", 1)[1])[0]
+    rep.instance("R07.5", "check_datapoint/same-condition", sample={"gate": gvar, "filter": fvar})
+    if not gvar or gvar != fvar:
         rep.add(transp.fnd("R07.5", "check_datapoint/same-condition", dp, dp.node.lineno,
                            "check_datapoint filters invalid rows and gates errorcode/errorlevel with different conditions: the two output modes disagree on which datapoints fail"))
     else:
-        cond = gvar.group(1)
+        cond = gvar
+        # the value selected AS bool_var
+        bvar = None
+        for js in [n for n in walk_no_nested(dp.node) if isinstance(n, ast.JoinedStr)]:
+            vs_ = js.values
+            for i_, v_ in enumerate(vs_[:-1]):
+                nxt = vs_[i_ + 1:]
+                if isinstance(v_, ast.FormattedValue) and isinstance(v_.value, ast.Name) and len(nxt) >= 2 and isinstance(nxt[0], ast.Constant) \
+                        and str(nxt[0].value).strip().upper() == "AS" and isinstance(nxt[1], ast.FormattedValue) and "bool_var" in src(nxt[1].value):
+                    bvar = v_.value.id
+        if bvar is None:
+            raise AnalysisError("_build_dp_rule_sql: the expression selected AS bool_var was not found")
         defs = [n for n in walk_no_nested(dp.node) if isinstance(n, ast.Assign) and any(isinstance(t, ast.Name) and t.id == cond for t in n.targets)]
-        bdefs = [n for n in walk_no_nested(dp.node) if isinstance(n, ast.Assign) and any(isinstance(t, ast.Name) and t.id == "bool_expr" for t in n.targets)]
+        bdefs = [n for n in walk_no_nested(dp.node) if isinstance(n, ast.Assign) and any(isinstance(t, ast.Name) and t.id == bvar for t in n.targets)]
         if len(defs) != 2 or len(bdefs) != 2:
-            raise AnalysisError("_build_dp_rule_sql: expected two definitions (with / without when) of the failure condition and of bool_expr")
+            raise AnalysisError("_build_dp_rule_sql: expected two definitions (with / without when) of the failure condition and of the bool_var expression")
         for d, b in zip(sorted(defs, key=lambda n: n.lineno), sorted(bdefs, key=lambda n: n.lineno)):
-            dt = _subst((sqlx.skeleton_of(d.value) or ("", []))[0], {r"when_cond": "W", r"then_expr": "T"})
-            bt = _subst((sqlx.skeleton_of(b.value) or ("", []))[0], {r"when_cond": "W", r"then_expr": "T"})
-            has_when = "W" in dt
+            dsk, bsk = (sqlx.skeleton_of(d.value) or ("", []))[0], (sqlx.skeleton_of(b.value) or ("", []))[0]
+            holes = sorted(set(HRE.findall(dsk)) | set(HRE.findall(bsk)), key=lambda h: (dsk + bsk).index(L + h + R_))
+            if not 1 <= len(holes) <= 2:
+                raise AnalysisError(f"_build_dp_rule_sql: failure condition / bool_var built from {len(holes)} values; expected the when and the then condition")
+            has_when = len(holes) == 2
+            # with `when`, the first value printed is the when-condition (WHEN (w) ... ), the other the then-condition
+            names = dict(zip(holes, ["W", "T"] if has_when else ["T"]))
+            dt = HRE.sub(lambda mm: names[mm.group(1)], dsk)
+            bt = HRE.sub(lambda mm: names[mm.group(1)], bsk)
             for w in (TV if has_when else [True]):
                 for t in TV:
                     env = {"W": w, "T": t}
